@@ -222,6 +222,7 @@ def findings(ctx, model):
     import opalg_stacks as S
 
     ctx.known_finding(S.KNOWN_NEG_INDEX, S.neg_index_still_fails(G.Env()))
+    ctx.known_finding(S.KNOWN_DREP_OA, S.drep_oa_still_fails(G.Env()))
 
 
 def search(ctx, model, why):
